@@ -1,4 +1,5 @@
 import VsbModel.Props.C02
+import VsbModel.Lemmas.LogicalRun
 set_option linter.unusedSectionVars false
 set_option linter.unusedSimpArgs false
 
@@ -167,3 +168,88 @@ example : (runFiles (0 : Nat) [] (none : Option (List (Rec Nat Nat String)))
     = [(true, 2), (false, 1), (false, 0)] := by decide
 
 end Vsb.Dedup
+
+/-! ### Along histories -/
+namespace Vsb.Restore
+open Vsb.Dedup
+variable {H β F : Type} [DecidableEq H] [DecidableEq F]
+
+theorem view_all_true (group : List (List (Rec H F String))) : ∀ (mask : List Bool), (∀ b ∈ mask, b = true) →
+    view group mask = group.map some := by
+  induction group with
+  | nil => intro mask _; cases mask <;> rfl
+  | cons rs rest ih =>
+    intro mask hm
+    cases mask with
+    | nil => simp only [view, List.map_cons]; rw [ih [] (by intro b hb; cases hb)]
+    | cons m ms =>
+      have hmt : m = true := hm m (by simp)
+      subst hmt
+      simp only [view, if_true, List.map_cons]
+      rw [ih ms (fun b hb => hm b (List.mem_cons_of_mem _ hb))]
+
+/-- **stored_once_history.**  Start from an empty storage and apply any history of completed runs (appending or opening a
+new group) and deletions of whole groups, every run being able to read the manifests of its group and meeting the
+assumptions of `history_restore_exact`.  Then in every group of the resulting storage no content is stored twice: the
+hashes of the `unique` records of the group are pairwise distinct. -/
+theorem stored_once_history (hashOf : List β → H) (ops : List (LOp β F)) (st : LStore β F)
+    (hst : ∀ g ∈ st, (uniques (g.map (recsD hashOf)).flatten).Nodup)
+    (hs : ∀ (pre : List (LOp β F)) (op : LOp β F) (post : List (LOp β F)), ops = pre ++ op :: post →
+        OpSoundL hashOf (pre.foldl (stepL hashOf) st) op)
+    (hread : ∀ name es fpf mask ng, LOp.run name es fpf mask ng ∈ ops → ∀ b ∈ mask, b = true) :
+    ∀ g ∈ ops.foldl (stepL hashOf) st, (uniques (g.map (recsD hashOf)).flatten).Nodup := by
+  induction ops generalizing st with
+  | nil => simpa using hst
+  | cons op ops ih =>
+    simp only [List.foldl_cons]
+    apply ih
+    · have hsound := hs [] op ops rfl
+      simp only [List.foldl_nil] at hsound
+      cases op with
+      | deleteGroups keep => intro g hg; exact hst g (keepMasked_sub st keep g hg)
+      | run name es fpf mask newGroup =>
+        have hmask := hread name es fpf mask newGroup (by simp)
+        have hfresh : ∀ (hs' : RunSound hashOf ([] : List (LBackupF β F)) [] es fpf),
+            (uniques ([runL hashOf ([] : List (LBackupF β F)) [] name es fpf].map (recsD hashOf)).flatten).Nodup := by
+          intro hs'
+          simp only [List.map_cons, List.map_nil]
+          rw [recsD_runL hashOf [] [] name es fpf hs']
+          have := unique_nodup (hashOf []) ([] : List (List (Rec H F String))) (eventsOf hashOf fpf es) (by simp [uniques])
+          simpa [view, allReadable] using this.1
+        unfold stepL
+        unfold OpSoundL at hsound
+        cases hl : st.getLast? with
+        | none =>
+          simp only [hl] at hsound ⊢
+          intro g hg
+          rcases List.mem_append.mp hg with h | h
+          · exact hst g h
+          · simp only [List.mem_singleton] at h; subst h; exact hfresh hsound
+        | some glast =>
+          cases newGroup with
+          | true =>
+            simp only [hl] at hsound ⊢
+            intro g hg
+            rcases List.mem_append.mp hg with h | h
+            · exact hst g h
+            · simp only [List.mem_singleton] at h; subst h; exact hfresh hsound
+          | false =>
+            simp only [hl] at hsound ⊢
+            intro g hg
+            rcases List.mem_append.mp hg with h | h
+            · exact hst g (List.dropLast_subset _ h)
+            · simp only [List.mem_singleton] at h
+              subst h
+              simp only [List.map_append, List.map_cons, List.map_nil]
+              rw [recsD_runL hashOf glast mask name es fpf hsound, view_all_true _ mask hmask]
+              have := unique_nodup (hashOf []) (glast.map (recsD hashOf)) (eventsOf hashOf fpf es)
+                (hst glast (List.mem_of_getLast? hl))
+              rw [view_all_true _ (allReadable (glast.map (recsD hashOf))) (by intro b hb; simp [allReadable] at hb; exact hb.2)] at this
+              exact this.1
+    · intro pre op' post heq
+      have := hs (op :: pre) op' post (by simp [heq])
+      simpa using this
+    · intro name es fpf mask ng hin
+      exact hread name es fpf mask ng (List.mem_cons_of_mem _ hin)
+
+end Vsb.Restore
